@@ -203,7 +203,7 @@ def main() -> int:
         if set(K) != want:
             problems.append(("classes-vs-devices", f"library classes instantiated {sorted(set(K))} but devices need {sorted(want)}"))
         if ("LiquidCrystal_I2C.h" in out["incs"]) != ("Wire.h" in out["incs"]):
-            problems.append(("wire", f"Wire.h / LiquidCrystal_I2C.h not included together: {out['incs']}"))
+            rep.count("wire_h_not_paired_with_i2c_header")   # not part of the statement (the I2C library may include Wire.h itself)
         n_servo_objs = sum(1 for k in K if k == "Servo")
         if n_servo_objs != cfg[0] + cfg[1]:
             problems.append(("servo-count", f"{n_servo_objs} Servo objects for {cfg[0] + cfg[1]} declared servos"))
